@@ -106,8 +106,17 @@ def make_doc(spec):
         o.c = [FACETS[c % len(FACETS)]] + ([FACETS[(c // 7) % len(FACETS)]] if c >= 7 else [])
     for name, x in (("t", t), ("u", u)):
         if x != "-":
+            if x >= 1000:
+                # filler document: x-1000 distinct words, enough to spread a text index's word map and the
+                # lexicon over several BTree buckets (a change that marks only the tree's root then loses data)
+                setattr(o, name, " ".join("w%03d" % j for j in range(x - 1000)) + " apple")
+                continue
             n = x % 6
-            setattr(o, name, " ".join(WORDS[(x // 6 + j * (1 + x % 3)) % len(WORDS)] for j in range(n)))
+            text = " ".join(WORDS[(x // 6 + j * (1 + x % 3)) % len(WORDS)] for j in range(n))
+            if x >= 100:
+                # ordinary words plus two of the filler vocabulary (postings of OLD words get new members)
+                text += " w%03d w%03d" % (x % 80, (x * 7) % 80)
+            setattr(o, name, text)
     return o
 
 
@@ -161,7 +170,8 @@ def observe(cat, ids):
             part.append("eqs=" + "/".join(idset(ix.applyEq(f)) for f in FACETS))
             part.append("counts=" + repr(sorted(ix.counts(list(ix.indexed())).items())))
         else:
-            for q in ("apple", "berry OR fig", '"cherry date"', "grape -apple", "haz*", "date", "elder", "iris OR jade"):
+            for q in ("apple", "berry OR fig", '"cherry date"', "grape -apple", "haz*", "date", "elder", "iris OR jade",
+                      "w000 OR w001 OR w002 OR w003", "w01* OR w07*", "w04? OR w05?", "w02* OR w03* OR w06*"):
                 r = ix.apply(q)
                 part.append("%s=%s" % (q.replace(" ", "_"),
                                        " ".join("%d:%s" % (d, fmtscore(s)) for d, s in sorted(r.items()))))
@@ -179,8 +189,18 @@ def gen(rng, tier, idx):
 
     shared = rng.random() < 0.35
     seeds = [rng.randrange(60) for _ in range(2)]
+    bigvocab = rng.random() < 0.3
+    if bigvocab:
+        # a filler document with 80-140 distinct words, committed before anything else happens
+        nfill = rng.choice([80, 100, 140])
+        cmds += [["op", k, "index", ids[-1], 0, 1, 0, 1000 + nfill, 1000 + nfill], ["commit"]]
+        k += 1
+        seeds = [100 + rng.randrange(400) for _ in range(3)]
 
     def docspec():
+        if bigvocab and rng.random() < 0.7:
+            return [rng.randrange(3), rng.choice([1, 3, 7]), rng.choice([0, 1]), rng.choice(seeds),
+                    100 + rng.randrange(400)]
         if shared:
             return [rng.randrange(3), rng.choice([1, 3, 3, 7]), rng.choice([0, 1]), rng.choice(seeds),
                     rng.choice(seeds)]
